@@ -18,6 +18,10 @@ theorem empty_shown : Gen.jwtEmptyShown = true := by decide
     attribute identifies its field); the twelve RFC 7518 algorithms have long names ending in "(<alg>)". -/
 theorem tables_ok :
     Gen.jwtParamOrder.Nodup ∧ (Gen.jwtParamOrder.all fun k => (paramOf k).isSome) = true ∧
+    -- the header is searched for every registered name (header parameters, RFC 7515 §4.1, and claims replicated there,
+    -- RFC 7519 §5.3); the payload only for the registered claims of RFC 7519 §4.1
+    Gen.jwtHeaderShown = Gen.jwtParamOrder ∧
+    Gen.jwtPayloadShown = ["aud", "exp", "iat", "iss", "jti", "nbf", "sub"] ∧
     (Gen.jwtParams.map (·.2.1)).Nodup ∧ (Gen.jwtParams.all fun r => Gen.jwtParamOrder.contains r.1) = true ∧
     Gen.jwtAlgNames.map (·.1) = ["HS256", "HS384", "HS512", "RS256", "RS384", "RS512", "ES256", "ES384", "ES512",
                                    "PS256", "PS384", "PS512"] ∧
@@ -42,35 +46,46 @@ theorem jwt_iff (json : Bytes → JDoc) (data : Bytes) :
 
 /-- REGISTERED READ-BACK: a registered string-valued parameter that is present is shown with its value
     (empty strings included) -/
-theorem registered_readback (m : List (Bytes × JVal)) (k descr : String) (s : Bytes)
-    (hk : k ∈ Gen.jwtParamOrder) (hp : paramOf k = some (descr, "str"))
+theorem registered_readback (order : List String) (m : List (Bytes × JVal)) (k descr : String) (s : Bytes)
+    (hk : k ∈ order) (hp : paramOf k = some (descr, "str"))
     (hv : m.lookup (k.toList.map Char.toNat) = some (.str s)) :
-    (⟨descr.toList.map Char.toNat, s⟩ : Attr) ∈ attributesOf m :=
-  Lemmas.Jwt.registered_readback empty_shown m k descr s hk hp hv
+    (⟨descr.toList.map Char.toNat, s⟩ : Attr) ∈ attributesOfIn order m :=
+  Lemmas.Jwt.registered_readback empty_shown order m k descr s hk hp hv
 
 /-- the algorithm is shown by its registered long name, or verbatim when it is not one of the twelve -/
 theorem alg_readback (m : List (Bytes × JVal)) (descr : String) (s : Bytes)
     (hp : paramOf "alg" = some (descr, "sigAlg")) (hv : m.lookup (strBytes "alg") = some (.str s)) :
-    (⟨descr.toList.map Char.toNat, algText s⟩ : Attr) ∈ attributesOf m :=
+    (⟨descr.toList.map Char.toNat, algText s⟩ : Attr) ∈ headerAttributes m :=
   Lemmas.Jwt.alg_readback empty_shown m descr s hp hv
 
 /-- NUMERIC DATES: exp / nbf / iat given as JSON numbers are shown as the UTC second they denote -/
-theorem numeric_dates (m : List (Bytes × JVal)) (k descr : String) (n : Int)
-    (hk : k ∈ Gen.jwtParamOrder) (hp : paramOf k = some (descr, "unixTime"))
+theorem numeric_dates (order : List String) (m : List (Bytes × JVal)) (k descr : String) (n : Int)
+    (hk : k ∈ order) (hp : paramOf k = some (descr, "unixTime"))
     (hv : m.lookup (k.toList.map Char.toNat) = some (.num n)) :
-    (⟨descr.toList.map Char.toNat, Civil.fmtDateTime n⟩ : Attr) ∈ attributesOf m :=
-  Lemmas.Jwt.numeric_dates numeric_dates_handled m k descr n hk hp hv
+    (⟨descr.toList.map Char.toNat, Civil.fmtDateTime n⟩ : Attr) ∈ attributesOfIn order m :=
+  Lemmas.Jwt.numeric_dates numeric_dates_handled order m k descr n hk hp hv
 
 /-- ABSENT ⇒ NOT SHOWN: every attribute comes from a registered name that is present in the object -/
-theorem absent_not_shown (m : List (Bytes × JVal)) (a : Attr) (ha : a ∈ attributesOf m) :
-    ∃ k ∈ Gen.jwtParamOrder, ∃ descr conv v, paramOf k = some (descr, conv) ∧
+theorem absent_not_shown (order : List String) (m : List (Bytes × JVal)) (a : Attr) (ha : a ∈ attributesOfIn order m) :
+    ∃ k ∈ order, ∃ descr conv v, paramOf k = some (descr, conv) ∧
       m.lookup (k.toList.map Char.toNat) = some v ∧ a.name = descr.toList.map Char.toNat :=
-  Lemmas.Jwt.absent_not_shown m a ha
+  Lemmas.Jwt.absent_not_shown order m a ha
+
+/-- PAYLOAD SHOWS CLAIMS ONLY: an attribute shown for the payload comes from a registered CLAIM that is present in the
+    payload — a payload member that merely has the name of a header parameter (`kid`, `alg`, Keycloak's `typ`) shows
+    nothing; an attribute shown for the header comes from a registered name present in the header -/
+theorem header_claims_apart (h p : List (Bytes × JVal)) (a : Attr) :
+    (a ∈ headerAttributes h → ∃ k ∈ Gen.jwtParamOrder, ∃ descr conv v, paramOf k = some (descr, conv) ∧
+        h.lookup (k.toList.map Char.toNat) = some v ∧ a.name = descr.toList.map Char.toNat) ∧
+    (a ∈ payloadAttributes p → ∃ k ∈ ["aud", "exp", "iat", "iss", "jti", "nbf", "sub"], ∃ descr conv v,
+        paramOf k = some (descr, conv) ∧
+        p.lookup (k.toList.map Char.toNat) = some v ∧ a.name = descr.toList.map Char.toNat) :=
+  ⟨absent_not_shown Gen.jwtHeaderShown h a, absent_not_shown Gen.jwtPayloadShown p a⟩
 
 /-- ORDER: the attribute list depends only on the object as a finite map, not on the order of its members
     (Go's map iteration order) -/
-theorem order_independent (m₁ m₂ : List (Bytes × JVal)) (hp : m₁.Perm m₂) (hn : (m₁.map (·.1)).Nodup) :
-    attributesOf m₁ = attributesOf m₂ := Lemmas.Jwt.order_independent m₁ m₂ hp hn
+theorem order_independent (order : List String) (m₁ m₂ : List (Bytes × JVal)) (hp : m₁.Perm m₂) (hn : (m₁.map (·.1)).Nodup) :
+    attributesOfIn order m₁ = attributesOfIn order m₂ := Lemmas.Jwt.order_independent order m₁ m₂ hp hn
 
 /-- SIGNATURE: the shown signature is base64url without padding of the raw bytes: it decodes back to them -/
 theorem signature_readback (sig : Bytes) (hs : sig.Valid) :
@@ -87,5 +102,9 @@ example : (jwtData sampleJson (strBytes "eyJhbGciOiJIUzI1NiJ9.eyJzdWIiOiIiLCJleH
           ⟨strBytes "Expiration", strBytes "2023-11-14 22:13:20"⟩, ⟨strBytes "Subject", []⟩,
           ⟨strBytes "Signature", strBytes "c2ln"⟩] := by decide
 example : isJWT sampleJson (strBytes "bnVsbA.bnVsbA.c2ln") = false := by decide
+/-- a `kid` in the payload shows nothing; in the header it is shown -/
+example : payloadAttributes [(strBytes "kid", .str (strBytes "k1")), (strBytes "sub", .str (strBytes "bob"))] = [⟨strBytes "Subject", strBytes "bob"⟩] ∧
+    headerAttributes [(strBytes "typ", .str (strBytes "JWT")), (strBytes "kid", .str (strBytes "k1"))] =
+      [⟨strBytes "Type", strBytes "JWT"⟩, ⟨strBytes "Key Id", strBytes "k1"⟩] := by decide
 
 end WhatIs.C18
